@@ -185,7 +185,7 @@ func (u *Unit) eval(st *State, e ast.Expr) Value {
 		return u.loadElem(st, base, idx.Term)
 	case *ast.SliceExpr:
 		base := u.eval(st, e.X)
-		if base.K != KSlice || e.Slice3 {
+		if base.K != KSlice {
 			u.errorf("%s: unsupported slice expression", u.pos(e))
 			return Value{K: KUnit}
 		}
@@ -195,6 +195,20 @@ func (u *Unit) eval(st *State, e ast.Expr) Value {
 		}
 		if e.High != nil {
 			hi = u.eval(st, e.High).Term
+		}
+		if e.Slice3 {
+			// s[lo:hi:max]: 0 <= lo <= hi <= max <= cap(s); the result's capacity is max-lo
+			if e.High == nil || e.Max == nil {
+				u.errorf("%s: malformed full slice expression", u.pos(e))
+				return Value{K: KUnit}
+			}
+			mx := u.eval(st, e.Max).Term
+			if lo == nil || hi == nil || mx == nil {
+				u.errorf("%s: unsupported slice expression", u.pos(e))
+				return Value{K: KUnit}
+			}
+			u.failure(st, "slice", Or(Lt(lo, IntLit(0)), Gt(lo, hi), Gt(hi, mx), Gt(mx, base.Cap)))
+			return Value{K: KSlice, T: base.T, Elem: base.Elem, Ptr: Add(base.Ptr, lo), Len: Sub(hi, lo), Cap: Sub(mx, lo)}
 		}
 		u.failure(st, "slice", Or(Lt(lo, IntLit(0)), Gt(lo, hi), Gt(hi, base.Cap)))
 		return Value{K: KSlice, T: base.T, Elem: base.Elem, Ptr: Add(base.Ptr, lo), Len: Sub(hi, lo), Cap: Sub(base.Cap, lo)}
@@ -420,6 +434,70 @@ func (u *Unit) writeEvent(st *State, comp string) {
 		cls = comp[:i]
 	}
 	u.oblige(st, "writes", "writes:"+cls+":"+u.site("write"), []string{"C19"}, False)
+}
+
+// hdrWriteEvent: a store into a header field of buffer object obj. The header clauses of the
+// contract are read per object: `modifies hdr(x)` with x a buffer (or a pointer to its data field)
+// allows stores into x's header and into headers of objects allocated by this call; `modifies
+// newhdr(x)` only the latter (a view or buffer the function creates); `hdr(T)` with a type stays
+// class wide. A store into the header of any other object that existed before - the receiver of
+// Slice, the source of Append - is a write to shared state, also when it stores the value already
+// there (C19: a same-value store is a data race).
+func (u *Unit) hdrWriteEvent(st *State, comp string, elem types.Type, obj *Term) {
+	if u.old == nil {
+		return
+	}
+	ek := elemKey(elem)
+	objs, classWide, any := u.declaredHdrObjects(ek)
+	if classWide || !any {
+		u.writeEvent(st, comp)
+		return
+	}
+	oldBrk, ok := u.old.mem["obrk:"+ek]
+	if !ok {
+		oldBrk = u.obrk(u.old, elem)
+	}
+	alts := []*Term{Ge(obj, oldBrk)}
+	for _, o := range objs {
+		alts = append(alts, Eq(obj, o))
+	}
+	u.oblige(st, "writes", "writes:hdr-of-undeclared-object:"+u.site("write"), []string{"C19"}, Or(alts...))
+}
+
+// declaredHdrObjects: the objects whose headers the contract allows to be written (hdr(x) with x an
+// object), whether some hdr clause is class wide (hdr(T)), and whether any hdr/newhdr clause exists
+// for this element type.
+func (u *Unit) declaredHdrObjects(ek string) (objs []*Term, classWide, any bool) {
+	env := u.fnEnv(u.old)
+	for m := range u.ct.Modifies {
+		i := indexByte(m, '(')
+		if i < 0 {
+			continue
+		}
+		c, arg := m[:i], m[i+1:len(m)-1]
+		if c != "hdr" && c != "newhdr" {
+			continue
+		}
+		ae, err := parseSpec(arg)
+		if err != nil || elemKey(u.elemOf(env, ae)) != ek {
+			continue
+		}
+		any = true
+		if c == "newhdr" {
+			continue
+		}
+		if _, isType := u.specType(env, ae); isType {
+			classWide = true
+			continue
+		}
+		v := u.evalSpec(env, ae)
+		if (v.K == KBuf || v.K == KPtrData) && v.Term != nil {
+			objs = append(objs, v.Term)
+		} else {
+			classWide = true
+		}
+	}
+	return
 }
 
 // fieldPath applies a (possibly promoted) field selection.
@@ -773,7 +851,7 @@ func (u *Unit) assign(st *State, lhs ast.Expr, v Value, define bool) {
 		base := u.eval(st, l.X)
 		if base.K == KBuf && l.Sel.Name == "data" && v.K == KSlice {
 			u.failure(st, "nil-deref", Lt(base.Term, IntLit(0)))
-			u.writeEvent(st, "dlen:"+elemKey(base.Elem))
+			u.hdrWriteEvent(st, "dlen:"+elemKey(base.Elem), base.Elem, base.Term)
 			u.setBufData(st, base, v)
 			return
 		}
@@ -783,13 +861,13 @@ func (u *Unit) assign(st *State, lhs ast.Expr, v Value, define bool) {
 				f = "bd"
 				delete(u.bdKnown, base.Term.String())
 			}
-			u.writeEvent(st, f+":"+elemKey(base.Elem))
+			u.hdrWriteEvent(st, f+":"+elemKey(base.Elem), base.Elem, base.Term)
 			u.setComp(st, f+":"+elemKey(base.Elem), Store(u.fld(st, base.Elem, f), base.Term, v.Term))
 			return
 		}
 		if base.K == KBuf && v.K == KInt {
 			name := "xf." + l.Sel.Name + ":" + elemKey(base.Elem)
-			u.writeEvent(st, "dlen:"+elemKey(base.Elem))
+			u.hdrWriteEvent(st, "dlen:"+elemKey(base.Elem), base.Elem, base.Term)
 			u.setComp(st, name, Store(u.comp(st, name, arrII), base.Term, v.Term))
 			return
 		}
